@@ -373,4 +373,57 @@ p("c13-p-rename-marker", "C13", PDAF,
   "        new_tf = self._transition_function.copy()\n        new_tf.add_transition(new_start, Epsilon(), new_stack_symbol,\n                              self._start_state, [self._start_stack_symbol,\n                                                  new_stack_symbol])\n        for state in self._states:",
   "        new_tf = self._transition_function.copy()\n        pushed = [self._start_stack_symbol, new_stack_symbol]\n        new_tf.add_transition(new_start, Epsilon(), new_stack_symbol,\n                              self._start_state, pushed)\n        for state in self._states:")
 
+# ----------------------------------------------------------------------------- C05
+RXF = "pyformlang/regular_expression/regex.py"
+RDF = "pyformlang/regular_expression/regex_reader.py"
+ROF = "pyformlang/regular_expression/regex_objects.py"
+b("c05-star-no-skip", "C05", RXF,
+  "        self._add_epsilon_transition_in_enfa_between(s_from, s_to)\n        self._add_epsilon_transition_in_enfa_between(s_from, state_first)",
+  "        self._add_epsilon_transition_in_enfa_between(s_from, state_first)", "thompson-paths:star")
+b("c05-star-no-loop", "C05", RXF,
+  "        self._add_epsilon_transition_in_enfa_between(state_second, state_first)\n", "", "thompson-paths:star")
+b("c05-concat-sons-swapped", "C05", RXF,
+  "        self._process_to_enfa_son(s_from, state0, 0)\n        self._process_to_enfa_son(state1, s_to, 1)",
+  "        self._process_to_enfa_son(s_from, state0, 1)\n        self._process_to_enfa_son(state1, s_to, 0)",
+  "thompson-paths:concatenation")
+b("c05-union-one-branch", "C05", RXF,
+  "        son_number = 1\n        self._create_union_branch_in_enfa(s_from, s_to, son_number)", "        son_number = 1",
+  "thompson-paths:union")
+b("c05-union-builds-concat", "C05", RXF,
+  "        regex = Regex(\"\")\n        regex.head = pyformlang.regular_expression.regex_objects.Union()\n        regex.sons = [self, other]",
+  "        regex = Regex(\"\")\n        regex.head = pyformlang.regular_expression.regex_objects.Concatenation()\n        regex.sons = [self, other]",
+  "head=Union")
+b("c05-concatenate-swapped", "C05", RXF,
+  "            pyformlang.regular_expression.regex_objects.Concatenation()\n        regex.sons = [self, other]",
+  "            pyformlang.regular_expression.regex_objects.Concatenation()\n        regex.sons = [other, self]",
+  "sons=[self,other]")
+b("c05-reader-raises-valueerror", "C05", RDF,
+  "        if not isinstance(first_symbol, Symbol):\n            raise MisformedRegexError(MISFORMED_MESSAGE, self._regex)",
+  "        if not isinstance(first_symbol, Symbol):\n            raise ValueError(MISFORMED_MESSAGE)", "raise:ValueError")
+b("c05-reader-unguarded-next", "C05", RDF,
+  "        if self._end_current_group < len(self._components):\n            self._current_node = to_node(\n                self._components[self._end_current_group])",
+  "        if True:\n            self._current_node = to_node(\n                self._components[self._end_current_group])",
+  "token-index-unguarded")
+b("c05-plus-not-union", "C05", ROF,
+  "UNION_SYMBOLS = [\"|\", \"+\"]", "UNION_SYMBOLS = [\"|\"]", "documented-spellings:UNION_SYMBOLS")
+b("c05-union-prints-plus-plus", "C05", ROF,
+  "        return \"(\" + \"|\".join(sons_repr) + \")\"", "        return \"(\" + \"/\".join(sons_repr) + \")\"",
+  "printer-spelling:Union")
+b("c05-leaf-epsilon-as-symbol", "C05", RXF,
+  "        if isinstance(self.head,\n                      pyformlang.regular_expression.regex_objects.Epsilon):\n            self._add_epsilon_transition_in_enfa_between(s_from, s_to)\n        elif not isinstance(",
+  "        if isinstance(self.head,\n                      pyformlang.regular_expression.regex_objects.KleeneStar):\n            self._add_epsilon_transition_in_enfa_between(s_from, s_to)\n        elif not isinstance(",
+  "leaf-cases")
+p("c05-p-star-order", "C05", RXF,
+  "        self._add_epsilon_transition_in_enfa_between(state_second, state_first)\n        self._add_epsilon_transition_in_enfa_between(s_from, s_to)",
+  "        self._add_epsilon_transition_in_enfa_between(s_from, s_to)\n        self._add_epsilon_transition_in_enfa_between(state_second, state_first)")
+V.append(dict(id="c05-x-union-loop", prop="C05", file=RXF, kind="unfollowable",
+  old="        son_number = 0\n        self._create_union_branch_in_enfa(s_from, s_to, son_number)\n        son_number = 1\n        self._create_union_branch_in_enfa(s_from, s_to, son_number)",
+  new="        for son_number in (0, 1):\n            self._create_union_branch_in_enfa(s_from, s_to, son_number)"))
+p("c05-p-union-locals", "C05", RXF,
+  "        son_number = 0\n        self._create_union_branch_in_enfa(s_from, s_to, son_number)\n        son_number = 1\n        self._create_union_branch_in_enfa(s_from, s_to, son_number)",
+  "        self._create_union_branch_in_enfa(s_from, s_to, 0)\n        self._create_union_branch_in_enfa(s_from, s_to, 1)")
+_unused = ("c05-p-union-inline", "C05", RXF,
+  "        son_number = 0\n        self._create_union_branch_in_enfa(s_from, s_to, son_number)\n        son_number = 1\n        self._create_union_branch_in_enfa(s_from, s_to, son_number)",
+  "        for son_number in (0, 1):\n            self._create_union_branch_in_enfa(s_from, s_to, son_number)")
+
 VARIANTS = V
